@@ -684,6 +684,10 @@ def strict_read(stream: bytes, max_messages: int = 50, _allow_te10: bool = False
         if m.method == "CONNECT":
             return msgs, ("dontcare", "CONNECT")
         if not (target.startswith(b"/") or target == b"*" or re.match(rb"[A-Za-z][A-Za-z0-9+.-]*://", target)):
+            if re.match(rb"[A-Za-z0-9+.-]+://", target):
+                # scheme-like prefix that does not start with ALPHA ('0ttp://'): URI syntax, not message framing; the target
+                # reaches the application verbatim
+                return msgs, ("dontcare", "absolute-form with a scheme that does not start with a letter")
             return msgs, ("reject", "request-target is neither origin-, absolute- nor asterisk-form")
         if target == b"*" and m.method != "OPTIONS":
             return msgs, ("reject", "asterisk-form with a method other than OPTIONS")
